@@ -28,8 +28,8 @@ def run(tier, seed):
         jobs.append(Job("c08", "debug", "spqlios-fma", {"mode": "rc"}, rc_params=core.rc_params(core.splitmix(seed, 20 + k), n // 2), label="rc debug %d" % k))
     jobs.append(Job("c08", "asan-native", "spqlios-fma", {"mode": "rc"}, rc_params=core.rc_params(core.splitmix(seed, 40), n // 3), label="rc asan-native"))
     stat_jobs = []
-    for k in range(4 if q else 16):
-        lay = [(8, 2, 1024, 500), (8, 2, 1024, 630), (4, 4, 512, 500), (14, 2, 600, 501)][k % 4]
+    for k in range(6 if q else 18):
+        lay = [(8, 2, 1024, 500), (8, 2, 1024, 630), (4, 4, 512, 500), (14, 2, 600, 501), (15, 1, 1024, 500), (24, 1, 300, 17)][k % 6]
         j = Job("c08", "optim" if k % 4 != 3 else "debug", "spqlios-fma",
                 {"mode": "realstats", "t": lay[0], "basebit": lay[1], "nin": lay[2], "nout": lay[3], "samples": 5000 if q else 8000,
                  "seed": core.splitmix(seed, 70 + k), "alog": 15 if k % 2 == 0 else 20}, label="realstats %d" % k)
@@ -63,7 +63,7 @@ def run(tier, seed):
                 "ties either way, and the sum over the sweep is -+2^31 (mean -+1/2 unit: unbiased). E1 rapidcheck: basebit 1..10, t up to 31/basebit, source dimension in "
                 "{1,2,3,7,8,9,17,1024,2048}, target in 1..9 and {500,630}, noise-free and library-generated (noisy) keys, masks random / boundary-biased (digit boundaries +-2 after the "
                 "rounding offset, carry to the top, wrap, exact ties +-2), result mask in a guard-page buffer; oracle: phase difference == sum_i s_i (a_i - round_w(a_i)) - sum of the "
-                "measured errors of the rows (i,j,digit!=0), an exact identity. Real keys: >= %d samples with the exact identity plus z=6 tests of the residual mean/variance against their "
+                "measured errors of the rows (i,j,digit!=0), an exact identity; every row (i,j,h) of a library-generated key must itself encrypt h s_i base^-(j+1) within 9 alpha (+2 units) and the row noise variance must match alpha (z=6), so a wrong row message cannot hide in the measured errors. Real keys (layouts incl. basebit 1): >= %d samples with the exact identity plus z=6 tests of the residual mean/variance against their "
                 "expectation under uniform digits computed from the measured row errors. Non-trivial = boundary-biased mask or a dimension that is not a multiple of 8 (rapidcheck, hashed), "
                 "or a value within 1 unit of a rounding boundary / the wrap (sweeps, by construction)." % ((QUICK if q else THOROUGH), nsamp))
     res.assumptions = ["row errors of library-generated keys are measured exactly with the secret keys before use",
